@@ -5,8 +5,11 @@ from ..events import (all_events, construct_of, flat_events)
 from ..report import render_path
 from ..terms import show, plain, is_const, strip_wrappers, mentions, walk
 from .. import e3 as e3mod
+from .. import names
 from .. import e4 as e4mod
 from ..repo import AnalysisError
+
+from . import shared
 
 LEVEL = "other"
 EXPLANATION = (
@@ -21,6 +24,7 @@ EXPLANATION = (
     "of the `added` column; (count) the status row's connection count is the sum "
     "over all namespaces and mailboxes of the listener-collection size. Not "
     "decided: numeric values of records.")
+EXPLANATION += ' Also decided: a side is admitted only with its side row stored, and no start-up statement touches usage records.'
 
 SIDE_TABLE = {"nameplates": ("nameplate_sides", "nameplates_id"),
               "mailboxes": ("mailbox_sides", "mailbox_id")}
@@ -108,6 +112,9 @@ def expected(kind, n, moods, pruned):
 
 def run(ctx):
     model = ctx.model
+    shared.r_lookup(ctx, "R15.lookup", ('mailboxes',))
+    shared.r_startup(ctx, "R15.startup", ('nameplates', 'mailboxes'),
+                     'usage records are removed or rewritten', usage=True)
     from .. import roles as _roles
     R = _roles.get(model)
     interp = model.interp
@@ -231,12 +238,58 @@ def run(ctx):
             ctx.ob("R15.pair", construct_of(e) + " [accompanies a delete]", ok, e,
                    "" if ok else "a usage record is written for a %s that is not retired"
                    % st.table[:-1])
+            # `pruney` is the result of an expiry and of nothing else: the flag the
+            # classifier is called with is True on the sweep and False on commands
+            fi_cls = _classifier(ctx, model, st.table)
+            flag = None
+            for x, _ in all_events(p, ("pure", "call")):
+                if x["callee"] == fi_cls.qualname:
+                    a = x["args"]
+                    kw = dict(x.get("kwargs") or ())
+                    if len(a) >= 3:
+                        flag = a[2]
+                    elif fi_cls.params[-1] in kw:
+                        flag = kw[fi_cls.params[-1]]
+                if x is e:
+                    break
+            on_sweep = model.is_timer_entry(p.entry)
+            okp = flag == ("const", on_sweep)
+            ctx.ob("R15.pair", construct_of(e) + " [pruned flag = retired by the sweep]", okp, e,
+                   "" if okp else "the classifier is called with pruned=%s on %s: the record "
+                   "is classified %s" % (show(flag)[:20] if flag else "?",
+                                         "the sweep" if on_sweep else "a command",
+                                         "as not expired" if on_sweep else "`pruney`"))
     ctx.require("R15.pair", nrec, 2, "usage record INSERTs")
+    # R15.rows: the record is computed from the side rows, so every side that
+    # was admitted must have one
+    ctx.rule("R15.rows", "a side is admitted (open / claim goes on to the crowd count) only "
+             "with its side row stored (same rule instances as R05.count [after own row]): "
+             "start time, waiting time and the lonely/happy classification are computed "
+             "from the side rows")
+    from . import c05
+    from ..report import Ctx
+    sub = Ctx(model, "C05", ctx.tier)
+    c05.run(sub)
+    nrows = 0
+    for o in sub.obligations:
+        if o.rule == "R05.count" and "[after own row]" in o.construct:
+            nrows += 1
+            ctx.ob("R15.rows", o.construct.replace("raise CrowdedError", "admission"),
+                   o.ok, o.site, o.detail + ("" if o.ok else " -- this side takes part in "
+                   "the channel without a side row: the usage record of the channel has the "
+                   "wrong start / waiting time and counts one side too few"))
+    ctx.require("R15.rows", nrows, 2, "admission sites (open, claim)")
     # R15.table / R15.times
     app = ("obj", "AppNamespace", ("sym",))
     for kind, table in (("mailbox", "mailboxes"), ("nameplate", "nameplates")):
         fi = _classifier(ctx, model, table)
-        paths = model.run_function(fi, app, [("param", q) for q in fi.params[1:]])
+        if len(fi.params) != 4:
+            raise AnalysisError("R15.table: classifier %s does not take (side rows, "
+                                "deletion time, pruned)" % fi.qualname)
+        # positional roles (the tests pin the order): whatever the parameters
+        # are called, the analysis knows them by these names
+        paths = model.run_function(fi, app, [("param", "side_rows"),
+                                             ("param", "delete_time"), ("param", "pruned")])
         alts = None
         for p in paths:
             for e in p.events:
@@ -440,10 +493,30 @@ def _count(ctx, model):
                 ok, why = _sum_shape(v)
                 ctx.ob("R15.count", construct_of(e) + " [connections]", ok, e,
                        "" if ok else why)
-    ctx.require("R15.count", n, 1, "status row INSERTs")
+                # `the status row`: refreshed, i.e. the old one is replaced in
+                # the same transaction
+                prev = None
+                for x, _ in all_events(p, ("sql", "commit")):
+                    if x is e:
+                        break
+                    if x["k"] == "commit" and x["db"] == "usage":
+                        prev = None
+                    elif x["k"] == "sql" and x["db"] == "usage" and \
+                            x["stmt"].kind == "delete" and x["stmt"].table == "current" and \
+                            x["stmt"].where is None:
+                        prev = x
+                ctx.ob("R15.count", construct_of(e) + " [replaces the previous row]",
+                       prev is not None, e, "" if prev is not None else
+                       "the status row is inserted without deleting the previous one in the "
+                       "same transaction: the table accumulates one row per sweep")
+    if n == 0:
+        # the sweep runs (its paths were analysed above) but never writes the row
+        ctx.ob("R15.count", "the timer refreshes the status row", False, "",
+               "no INSERT into usage `current` is reachable from the timer callable "
+               "(%d paths): the status row is never written" % len(model.paths("timer")))
     e4 = e4mod.get(model)
     for f in e4.findings:
-        if f.kind == "rule_u" and "Server._apps" in f.construct:
+        if f.kind == "rule_u" and model.names.reg_name("apps") in f.construct:
             ctx.ob("R15.count", f.construct, f.ok, f.site, f.detail +
                    ("" if f.ok else " -- listeners registered through a dropped namespace "
                     "object are not counted in connections_websocket"))
@@ -465,16 +538,16 @@ def _sum_shape(v):
         return False, "connection count is %s" % show(v)[:80]
     elt1, it1 = s1
     if not (it1[0] == "call" and it1[1] == ".values" and it1[2][0][0] == "reg" and
-            it1[2][0][2] == "_apps"):
+            it1[2][0][2] == names.current().apps[1]):
         return False, "the count does not range over all namespaces (%s)" % show(it1)[:60]
     s2 = sum_of(elt1)
     if not s2:
         return False, "per-namespace count is %s" % show(elt1)[:80]
     elt2, it2 = s2
     if not (it2[0] == "call" and it2[1] == ".values" and it2[2][0][0] == "reg" and
-            it2[2][0][2] == "_mailboxes"):
+            it2[2][0][2] == names.current().mailboxes[1]):
         return False, "the count does not range over all mailboxes (%s)" % show(it2)[:60]
     if not (elt2[0] == "call" and elt2[1] == "len" and elt2[2][0][0] == "reg" and
-            elt2[2][0][2] == "_listeners"):
+            elt2[2][0][2] == names.current().listeners[1]):
         return False, "per-mailbox count is %s, not the number of listeners" % show(elt2)[:60]
     return True, ""
